@@ -250,7 +250,7 @@ theorem C08_filter_hides (o : Opts) (t : Tabs) (atom : Nat) (name : List Nat) (d
     let recognised := (o.cEdge && decide (0 < (edgePred name).1)) ||
       (o.cHeu && decide (0 < (domHeuPred (if o.cEdge then (edgePred name).2.2.2 else name)).1))
     ((symbol o t atom name doms).2.1.filter isOutput) = if o.filter && recognised then [] else [.output name [(atom : Int)]] := by
-  unfold symbol
+  unfold symbol record recognise
   cases hE : o.cEdge <;> cases hH : o.cHeu <;> cases hF : o.filter <;> simp only [Bool.false_and, Bool.true_and, Bool.false_eq_true, ↓reduceIte, Bool.false_or, Bool.or_false] <;>
     (try split) <;> (try split) <;> (try split) <;> simp_all [isOutput] <;> (try (intro h; omega)) <;> (try omega)
   all_goals (rw [if_neg (by omega)]; rfl)
